@@ -33,7 +33,7 @@ fn gen(rng: &mut Rng, case: u64) -> Case {
     let mut steps = Vec::with_capacity(len);
     let const_dt = if rng.chance(0.3) { Some(rng.step_ns(1_000, 3_600_000_000_000)) } else { None };
     for _ in 0..len {
-        t += const_dt.unwrap_or_else(|| rng.step_ns(1_000, 3_600_000_000_000));
+        t += if rng.chance(0.08) { rng.range_i64(1, 200) } else { const_dt.unwrap_or_else(|| rng.step_ns(1_000, 3_600_000_000_000)) };
         let input = match rng.below(14) { 0 => Ev::None, 1 => Ev::Err(rng.err_code()), 2 => { let c = f32::from(cur); Ev::Some(t, [c, c, c]) } // error exactly zero
             3 => match steps.iter().rev().find_map(|s: &Step| if let Ev::Some(_, v) = s.input { Some(v) } else { None }) { Some(v) => Ev::Some(t, v), None => Ev::Some(t, [rng.moderate(1e3), rng.moderate(1e3), rng.moderate(1e3)]) }, // same state again
             _ => Ev::Some(t, [rng.moderate(1e3), rng.moderate(1e3), rng.moderate(1e3)]) };
